@@ -6,6 +6,7 @@ import (
 	"reflect"
 	"sort"
 	"strings"
+	"sync"
 	"testing"
 
 	"github.com/xelaj/mtproto/internal/encoding/tl"
@@ -197,6 +198,15 @@ func evaluate(c *Case, src tlx.Src) error {
 	return oracle(v)
 }
 
+func firstDiffBytes(a, b []byte) int {
+	for i := range a {
+		if i >= len(b) || a[i] != b[i] {
+			return i
+		}
+	}
+	return len(a)
+}
+
 type rapidSrc struct{ t *rapid.T }
 
 func (r rapidSrc) U64() uint64 {
@@ -220,6 +230,82 @@ func TestC01(t *testing.T) {
 	}
 	depth := run.Pick(3, 6)
 	nsh := hx.NShards()
+	t.Run("first-use-concurrent", func(t *testing.T) {
+		// what the codec learns about a type the first time it meets it (tags, layouts) is learnt while other goroutines
+		// meet the same type: before anything else has been encoded in this process, a value of a type with conditional
+		// fields is serialised and read back from 12 goroutines released together; every one must produce the bytes a
+		// later, sequential serialisation produces
+		var n int64
+		idx := 0
+		limit := run.Pick(48, 600)
+		for _, name := range names {
+			pt := byName[name]
+			if excluded(name) != "" || pt.Kind() != reflect.Ptr || pt.Elem().Kind() != reflect.Struct || len(tlx.Groups(pt.Elem())) == 0 {
+				continue
+			}
+			idx++
+			if idx%nsh != run.Shard || n >= int64(limit) {
+				continue
+			}
+			c := &Case{Type: name, Depth: 2}
+			rec := &tlx.Recorder{In: &tlx.Xor{S: run.Seed*131 + uint64(idx)}}
+			var v reflect.Value
+			if err := hx.Safely(func() error {
+				var e error
+				v, _, e = build(c, rec)
+				return e
+			}); err != nil {
+				t.Fatalf("INFRA: builder: %v", err)
+			}
+			c.Draws = rec.Draws
+			n++
+			run.Case(true, evid.Hash("first-use", name, fmt.Sprint(c.Draws)), "first-use-concurrent")
+			const workers = 12
+			var ready, wg sync.WaitGroup
+			start := make(chan struct{})
+			outs := make([][]byte, workers)
+			errs := make([]error, workers)
+			for w := 0; w < workers; w++ {
+				ready.Add(1)
+				wg.Add(1)
+				go func(w int) {
+					defer wg.Done()
+					ready.Done()
+					<-start
+					errs[w] = hx.Safely(func() error {
+						b, err := tl.Marshal(v.Interface())
+						outs[w] = b
+						if err != nil {
+							return fmt.Errorf("Marshal: %v", err)
+						}
+						return oracle(v)
+					})
+				}(w)
+			}
+			ready.Wait()
+			close(start)
+			wg.Wait()
+			later, lerr := tl.Marshal(v.Interface())
+			for w := 0; w < workers; w++ {
+				var msg string
+				switch {
+				case errs[w] != nil && lerr == nil:
+					msg = fmt.Sprintf("under concurrent first use of the type (12 goroutines): %v - a later sequential serialisation succeeds", errs[w])
+				case lerr == nil && !bytes.Equal(outs[w], later):
+					msg = fmt.Sprintf("under concurrent first use of the type (12 goroutines) the value is serialised to %d bytes that differ from the %d bytes of a later sequential serialisation at byte %d", len(outs[w]), len(later), firstDiffBytes(outs[w], later))
+				}
+				if msg != "" {
+					p := run.ViolationNamed("first-use-"+strings.TrimPrefix(name, "*"), c, msg)
+					t.Errorf("violation (replay %s): %s", p, msg)
+					return
+				}
+			}
+		}
+		run.Exhaustive("types with conditional fields met for the first time by 12 goroutines at once (this shard's share, capped)", n)
+	})
+	if t.Failed() {
+		return
+	}
 	t.Run("every-constructor", func(t *testing.T) {
 		k := run.Pick(2, 24)
 		var n int64
